@@ -12,7 +12,7 @@ from typing import (
     Union,
 )
 
-from numpy import logical_not, ndarray
+from numpy import ndarray, where, zeros
 
 from mygrad._utils import WeakRefIterable
 from mygrad.operation_base import Operation
@@ -284,7 +284,8 @@ class UnView(Operation):
             assert grad_view.shape == self.variables[1].shape
             # check that grad_view shares memory with grad
             assert grad_view.base is grad
-            grad_view *= 0
+            # (assignment, not `*= 0`: an infinite incoming gradient must leave 0, not nan)
+            grad_view[...] = 0
 
             return grad
 
@@ -337,6 +338,8 @@ class ApplyMask(Operation):
         if index == 0:
             return grad
         elif index == 1:
-            return grad * logical_not(self._mask)
+            # (selection, not multiplication: an infinite gradient at a written
+            # element must leave 0 for the old contents, not nan)
+            return where(self._mask, zeros((), dtype=grad.dtype), grad)
         else:  # pragma: no cover
             raise ValueError(f"UnView: backward_var index: {index}")
